@@ -306,9 +306,9 @@ S(id="T.anode_reset", props=["C13", "C14"], spec="parse.spec.c", harness="h_pars
   what="every rule's caller_anode is NULL when a parse starts (abstract-node names are allocated per parse, never shared between trees of different parses)")
 
 # ---------------- C19: hash table contents as an inductive invariant (bounded) ----------------
-HTABS = dict(spec="htabs.spec.c", mode="B", dfcc=False, instr=["--drop-unused-functions"], params={"quick": {"SIZE": 7}, "thorough": {"SIZE": 11}},
-             unwind_all={"quick": 9, "thorough": 13}, rec_unwind=2, timeout=1500, mem=40,
-             bound="tables of 7 (thorough 11) slots, 4-key universe, arbitrary hash function; inductive, so histories of any length on a table of that size",
+HTABS = dict(spec="htabs.spec.c", mode="B", dfcc=False, instr=["--drop-unused-functions"], params={"quick": {"SIZE": 5}, "thorough": {"SIZE": 7}},
+             unwind_all={"quick": 7, "thorough": 9}, rec_unwind=2, timeout=1800, mem=40, cbmc=["--sat-solver", "cadical"],
+             bound="tables of 5 (thorough 7) slots, 4-key universe, arbitrary hash function; inductive, so histories of any length on a table of that size",
              functions=["find_hash_table_entry", "remove_element_from_hash_table_entry", "empty_hash_table", "hash_table_elements_number"])
 S(id="HT.abs.find", props=["C19"], harness="h_abs_find", canaries=3, what="search / reserve+fill from an ARBITRARY well-formed table: find hits iff the key is in the abstract set, an absent key yields an EMPTY slot, "
   "well-formedness and the abstract set are maintained (deleted slots are re-used correctly)", **HTABS)
@@ -336,10 +336,16 @@ DEMOS = {"API.parse": ["F1"], "API.parse.unwind": ["F1", "F25"], "S.flags": ["F2
          "RG.prefix": ["F4"], "D.front": ["F5"], "G.free": ["F6", "F1"], "G.free.symb_fin": ["F6"], "UB.lex": ["F7", "F9"], "D.codes": ["F8"], "S.codes256": ["F8"],
          "G.create": ["F10"], "P.step.base": ["F13"], "P.restore": ["F13"], "G.ctx": ["F18"], "UB.tset.up": ["F21"], "UB.tset.test": ["F21"]}
 # + demonstration programs written by the independent sub-agents for their seeded changes (API-level, public headers only)
-for k, v in {"RG.prefix": ["S_C15_m1"], "G.free": ["S_C14_m2"], "G.create": ["S_C17_m1"], "TOK.find": ["S_C12_m2"], "UB.lex": ["S_C11_m1"], "UB.msg.arg": ["S_C12_m1"],
+for k, v in {"RG.prefix": ["S_C15_m1"], "RG.verdict.native": ["F27"], "G.free": ["S_C14_m2"], "G.create": ["S_C17_m1"], "TOK.find": ["S_C12_m2"], "UB.lex": ["S_C11_m1"], "UB.msg.arg": ["S_C12_m1"],
              "OS.top.add_byte": ["S_C19_m2"], "HT.remove": ["S_C19_m1"], "A.wrap.realloc": ["S_C17_m2"], "D.front": ["S_C17_m3"], "P.step.base": ["S_C04_m1"],
              "T.size.copy": ["S_C04_m2"], "S.oneparse": ["S_C14_m1"], "T.anode_reset": ["S_C13_m1"], "T.free.native": ["S_C13_m2", "F26"], "VLO.grow": ["S_C19_m3"]}.items():
     DEMOS[k] = DEMOS.get(k, []) + v
 for _s in SETS:
     if _s["id"] in DEMOS:
         _s["demos"] = DEMOS[_s["id"]]
+S(id="RG.verdict.native", props=["C10"], spec="native/rg_enum.c", mode="N", link=["allocate.c", "hashtab.c", "objstack.c", "vlobject.c", "yaep.c"], harness="main",
+  params={"quick": {"NRULES": 3, "CHAIN": 10}, "thorough": {"NRULES": 4, "CHAIN": 16}}, timeout=3000,
+  bound="every grammar with <= 3 (thorough 4) rules over 3 nonterminals and 1 terminal, right-hand sides of length <= 2, strict and non-strict; unit-rule chains of length 1..10",
+  functions=["yaep_read_grammar", "set_empty_access_derives", "set_loop_p", "check_grammar"],
+  what="through the public API: returns 0 iff the grammar has no unproductive / unreachable (strict) / self-deriving nonterminal by a least-fixpoint specification; "
+       "a nonzero code names a defect that is present and equals yaep_error_code")
